@@ -75,6 +75,8 @@ structure Block where
   prev : Nat
   height : Nat
   txs : List Tx
+  /-- compact difficulty of the header (0: not given — every block then counts the same) -/
+  bits : Nat := 0
 deriving DecidableEq, Repr
 
 /-- entry of the per-address index: txid, output index, value -/
@@ -120,6 +122,20 @@ def swapRemoveP {α : Type} (p : α → Bool) : List α → List α
     else a :: swapRemoveP p r
 
 def swapRemove (l : List Nat) (x : Nat) : List Nat := swapRemoveP (· == x) l
+
+/-! ### how the unspent index stores a list of output indexes (unspentindex.go)
+
+  `toByteArray`: two bytes per index, low byte first; `getUint16Array`: `lo + hi*256`, error on an
+  odd length (and on nil, which the callers exclude by testing the length first). -/
+
+def u16enc : List Nat → List Nat
+  | [] => []
+  | x :: r => x % 65536 % 256 :: x % 65536 / 256 :: u16enc r
+
+def u16dec : List Nat → Option (List Nat)
+  | [] => some []
+  | [_] => none
+  | lo :: hi :: r => (u16dec r).map fun l => ((lo + hi * 256) % 65536) :: l
 
 /-! ### save / rollback processors (core/transaction) -/
 
